@@ -103,10 +103,11 @@ class ContextService(ServiceWithOperations):
                         for state in tmp:
                             context_state_containers_lookup[state.Handle] = state
                 context_state_containers = context_state_containers_lookup.values()
+            mdib_version_group = self._mdib.mdib_version_group
 
         response = data_model.msg_types.GetContextStatesResponse()
         response.ContextState.extend(context_state_containers)
-        response.set_mdib_version_group(self._mdib.mdib_version_group)
+        response.set_mdib_version_group(mdib_version_group)
         response_envelope = self._sdc_device.msg_factory.mk_reply_soap_message(request_data, response)
         return response_envelope
 
